@@ -4,7 +4,7 @@ from .. import tlc, gen, common, abm_replay
 
 TYPES = ["a", "b", "c"]
 SPAWN = {"c": ["a"]}          # creating a "c" (a firm) creates an "a" (an employee) from inside initialize()
-OPS = '{"Create","Delete","Configure","Reset","SetState"}'
+OPS = '{"Create","CreateFail","Delete","Configure","Reset","SetState"}'
 
 
 def consts(maxids):
